@@ -1,6 +1,151 @@
-(* C16 (placeholder while the tie is being brought up) *)
+(* C16: PMF integration solves the stated discrete problem; incremental divergence = batch.
+   Statements only; proofs in IntegrateProofs.v (any numeric carrier) and IntegrateRProofs.v (reals). *)
 From Coq Require Import ZArith List Bool Reals Lia.
-From CV Require Import Base.Num Base.RNum C16.IntegrateModel.
+From CV Require Import Base.Num Base.RNum C16.IntegrateModel C16.IntegrateProofs C16.IntegrateRProofs.
 Import ListNotations.
-Example C16_zrange : zrange 3 = [0; 1; 2]%Z.
-Proof. vm_compute. reflexivity. Qed.
+
+(* ---------------------------------------------------------------------------------------------
+   One dimension.  ghat sc sm gd gc j is the value of bin j that integrate() reads
+   (value_output_smoothed: accumulated sum times 1/count, or times the smoothing ramp). *)
+
+(* The PMF array has one point per gradient bin (+1 if not periodic) and entry i is exactly the
+   cumulative sum over the bins before i of (bin value - corr) * width, corr = average() if periodic. *)
+Theorem C16_1d_cumsum : forall (sc : smooth_cfg) (per sm : bool) (w : R) (gd : list R) (gc : list Z),
+  let corr := if per then average1 Rops sc gd gc else 0%R in
+  let pmf := integrate1 Rops sc per sm w gd gc in
+  length pmf = (if per then length gd else S (length gd)) /\
+  forall i, (i < length pmf)%nat -> nth i pmf 0%R = psum (fun j => ((ghat sc sm gd gc j - corr) * w)%R) i.
+Proof. exact integrate1_spec. Qed.
+Print Assumptions C16_1d_cumsum.
+
+(* the unsmoothed bin value is the bin average: accumulated sum / count (0 for an empty bin) ... *)
+Theorem C16_1d_bin_average : forall (sc : smooth_cfg) (gd : list R) (gc : list Z) (j : nat),
+  s_has_samples sc = true -> (j < length gd)%nat -> length gc = length gd ->
+  ghat sc false gd gc j = if (0 <? nth j gc 0%Z)%Z then (nth j gd 0 / IZR (nth j gc 0%Z))%R else 0%R.
+Proof. exact bin_average. Qed.
+Print Assumptions C16_1d_bin_average.
+
+(* ... the smoothed one is the bin average times the ramp (count-min)/(full-min), 0 up to minSamples *)
+Theorem C16_1d_smoothed_value : forall (sc : smooth_cfg) (gd : list R) (gc : list Z) (j : nat),
+  s_has_samples sc = true -> (j < length gd)%nat -> length gc = length gd ->
+  let c := nth j gc 0%Z in
+  ghat sc true gd gc j =
+    if Z_le_dec c (s_min sc) then 0%R
+    else if Z_lt_dec c (s_full sc)
+         then (IZR (c - s_min sc) / IZR (s_full sc - s_min sc) * (nth j gd 0 / IZR c))%R
+         else (nth j gd 0 / IZR c)%R.
+Proof. exact smoothed_value. Qed.
+Print Assumptions C16_1d_smoothed_value.
+
+(* ... and the periodic correction is the mean of the UNsmoothed bin averages *)
+Theorem C16_1d_correction_is_mean : forall (sc : smooth_cfg) (gd : list R) (gc : list Z), gd <> [] ->
+  average1 Rops sc gd gc = (psum (ghat sc false gd gc) (length gd) / INR (length gd))%R.
+Proof. exact average1_is_mean. Qed.
+Print Assumptions C16_1d_correction_is_mean.
+
+(* FULL STATEMENT (the surface of a periodic variable is periodic: continuing the sum over the last bin
+   returns to pmf[0] = 0), for smoothed and unsmoothed gradients:
+
+     Theorem C16_1d_periodic_closes : forall sc sm w gd gc, gd <> [] ->
+       closing1 Rops sc true sm w gd gc = 0%R.
+
+   It is FALSE of the code: integrate() subtracts gradients->average(), which is always the mean of the
+   unsmoothed averages, from value_output_smoothed(ix, b_smoothed).  With b_smoothed = true the two differ
+   as soon as one bin has fewer than fullSamples samples. *)
+Theorem C16_1d_periodic_closes_refuted : exists (sc : smooth_cfg) (sm : bool) (w : R) (gd : list R) (gc : list Z),
+  gd <> [] /\ closing1 Rops sc true sm w gd gc <> 0%R.
+Proof.
+  exists (mkSmooth true 0 2), true, 1%R, [1%R; 0%R], [1%Z; 2%Z]. split; [discriminate|].
+  rewrite periodic_smoothed_does_not_close. apply Rlt_not_eq. apply Ropp_lt_gt_0_contravar. apply Rdiv_lt_0_compat; apply IZR_lt; lia.
+Qed.
+Print Assumptions C16_1d_periodic_closes_refuted.
+
+(* it holds whenever the integrated values are the averaged ones: in particular without smoothing *)
+Theorem C16_1d_periodic_closes_partial : forall (sc : smooth_cfg) (sm : bool) (w : R) (gd : list R) (gc : list Z),
+  gd <> [] -> vals1 Rops sc sm gd gc = vals1 Rops sc false gd gc ->
+  closing1 Rops sc true sm w gd gc = 0%R.
+Proof. exact periodic_closes. Qed.
+Print Assumptions C16_1d_periodic_closes_partial.
+
+Theorem C16_1d_periodic_closes_unsmoothed : forall (sc : smooth_cfg) (w : R) (gd : list R) (gc : list Z),
+  gd <> [] -> closing1 Rops sc true false w gd gc = 0%R.
+Proof. intros sc w gd gc H. apply periodic_closes; auto. Qed.
+Print Assumptions C16_1d_periodic_closes_unsmoothed.
+
+(* ---------------------------------------------------------------------------------------------
+   Two and three dimensions: incremental divergence = batch divergence.
+   run2/run3 fold "acc_force; update_div_neighbors" over a history of (bin, force) arrivals;
+   set_div2/set_div3 recompute every entry from the gradient data; dump2/dump3 list the divergence
+   array in storage order.  The statements hold for EVERY numeric carrier T (reals and floats alike),
+   every grid shape with at least one bin per dimension, every periodicity pattern, smoothed or not,
+   every history (any order, any multiplicity) of in-range bins. *)
+Theorem C16_incremental_eq_batch_2d : forall (T : Type) (O : NumOps T) (sc : smooth_cfg) (sm : bool) (sh : shape2 (T:=T))
+    (st0 : state2 (T:=T)) (pre h : list ((Z * Z) * (T * T))),
+  (0 < nxg sh)%Z -> (0 < nyg sh)%Z -> Forall (fun e => in_grad2 sh (fst e)) h ->
+  let st1 := set_div2 O sc sm sh (preload2 O st0 pre) in
+  dump2 sh (dv2 (run2 O sc sm sh st1 h)) = dump2 sh (dv2 (set_div2 O sc sm sh (run2 O sc sm sh st1 h))).
+Proof. intros T O sc sm sh st0 pre h. exact (incremental_eq_batch2_after_set_div O sc sm sh st0 pre h). Qed.
+Print Assumptions C16_incremental_eq_batch_2d.
+
+Theorem C16_incremental_eq_batch_3d : forall (T : Type) (O : NumOps T) (sc : smooth_cfg) (sm : bool) (sh : shape3 (T:=T))
+    (st0 : state3 (T:=T)) (pre h : list ((Z * Z * Z) * (T * T * T))),
+  (0 < mxg sh)%Z -> (0 < myg sh)%Z -> (0 < mzg sh)%Z -> Forall (fun e => in_grad3 sh (fst e)) h ->
+  let st1 := set_div3 O sc sm sh (preload3 O st0 pre) in
+  dump3 sh (dv3 (run3 O sc sm sh st1 h)) = dump3 sh (dv3 (set_div3 O sc sm sh (run3 O sc sm sh st1 h))).
+Proof. intros T O sc sm sh st0 pre h. exact (incremental_eq_batch3_after_set_div O sc sm sh st0 pre h). Qed.
+Print Assumptions C16_incremental_eq_batch_3d.
+
+(* from the empty grids a new ABF bias starts with (zero gradients, zero counts, zero divergence), over the reals *)
+Theorem C16_incremental_eq_batch_2d_from_empty : forall (sc : smooth_cfg) (sm : bool) (sh : shape2 (T:=R))
+    (h : list ((Z * Z) * (R * R))),
+  (0 < nxg sh)%Z -> (0 < nyg sh)%Z -> Forall (fun e => in_grad2 sh (fst e)) h ->
+  dump2 sh (dv2 (run2 Rops sc sm sh (init2 Rops) h)) =
+  dump2 sh (dv2 (set_div2 Rops sc sm sh (run2 Rops sc sm sh (init2 Rops) h))).
+Proof. intros sc sm sh h Hx Hy Hh. apply incremental_eq_batch2; auto. apply init2_consistent. Qed.
+Print Assumptions C16_incremental_eq_batch_2d_from_empty.
+
+Theorem C16_incremental_eq_batch_3d_from_empty : forall (sc : smooth_cfg) (sm : bool) (sh : shape3 (T:=R))
+    (h : list ((Z * Z * Z) * (R * R * R))),
+  (0 < mxg sh)%Z -> (0 < myg sh)%Z -> (0 < mzg sh)%Z -> Forall (fun e => in_grad3 sh (fst e)) h ->
+  dump3 sh (dv3 (run3 Rops sc sm sh (init3 Rops) h)) =
+  dump3 sh (dv3 (set_div3 Rops sc sm sh (run3 Rops sc sm sh (init3 Rops) h))).
+Proof. intros sc sm sh h Hx Hy Hz Hh. apply incremental_eq_batch3; auto. apply init3_consistent. Qed.
+Print Assumptions C16_incremental_eq_batch_3d_from_empty.
+
+(* what "batch" means: set_div stores at every PMF point the divergence of the current gradient data *)
+Theorem C16_set_div_is_divergence_2d : forall (T : Type) (O : NumOps T) (sc : smooth_cfg) (sm : bool) (sh : shape2 (T:=T))
+    (st : state2 (T:=T)) (p : Z * Z),
+  (0 < nxg sh)%Z -> (0 < nyg sh)%Z -> in_pmf2 sh p ->
+  dv2 (set_div2 O sc sm sh st) p = div_value2 O sc sm sh st p.
+Proof. intros T O sc sm sh st p Hx Hy. exact (set_div2_spec O sc sm sh Hx Hy st p). Qed.
+Print Assumptions C16_set_div_is_divergence_2d.
+
+Theorem C16_set_div_is_divergence_3d : forall (T : Type) (O : NumOps T) (sc : smooth_cfg) (sm : bool) (sh : shape3 (T:=T))
+    (st : state3 (T:=T)) (p : Z * Z * Z),
+  (0 < mxg sh)%Z -> (0 < myg sh)%Z -> (0 < mzg sh)%Z -> in_pmf3 sh p ->
+  dv3 (set_div3 O sc sm sh st) p = div_value3 O sc sm sh st p.
+Proof. intros T O sc sm sh st p Hx Hy Hz. exact (set_div3_spec O sc sm sh Hx Hy Hz st p). Qed.
+Print Assumptions C16_set_div_is_divergence_3d.
+
+(* ---------------------------------------------------------------------------------------------
+   non-vacuity: the premises are satisfiable and the objects are not trivial (integer carrier, widths 1) *)
+From Coq Require Import QArith.
+Example C16_example_history_2d :
+  let sh := mkShape2 true false 2 1 1%Q (1#2)%Q in
+  let sc := mkSmooth true 0 2 in
+  let h := [((1, 0)%Z, (2#1, 4#1)%Q); ((0, 0)%Z, (-6#1, 2#1)%Q); ((1, 0)%Z, (2#1, 0#1)%Q)] in
+  Forall (fun e => in_grad2 sh (fst e)) h /\
+  dump2 sh (dv2 (run2 Qops sc true sh (init2 Qops) h)) = [-1 # 2; 11 # 2; -11 # 2; 1 # 2]%Q /\
+  dump2 sh (dv2 (set_div2 Qops sc true sh (run2 Qops sc true sh (init2 Qops) h))) = [-1 # 2; 11 # 2; -11 # 2; 1 # 2]%Q.
+Proof.
+  cbv zeta. split; [|split]; [| vm_compute; reflexivity | vm_compute; reflexivity].
+  repeat constructor; cbn; lia.
+Qed.
+
+Example C16_example_1d :
+  integrate1 Qops (mkSmooth false 0 1) false false (1#2)%Q [1#1; 2#1; 3#1]%Q [0; 0; 0]%Z = [0; 1 # 2; 3 # 2; 3]%Q /\
+  integrate1 Qops (mkSmooth false 0 1) true false (1#2)%Q [1#1; 2#1; 4#1]%Q [0; 0; 0]%Z = [0; -2 # 3; -5 # 6]%Q /\
+  closing1 Qops (mkSmooth false 0 1) true false (1#2)%Q [1#1; 2#1; 4#1]%Q [0; 0; 0]%Z = 0%Q /\
+  (* the refutation witness, computed: *)
+  closing1 Qops (mkSmooth true 0 2) true true (1#1)%Q [1#1; 0#1]%Q [1; 2]%Z = (-1 # 2)%Q.
+Proof. repeat split; vm_compute; reflexivity. Qed.
